@@ -12,13 +12,14 @@
 (***************************************************************************)
 EXTENDS Pool, Json, IOUtils, TLCExt
 
-CONSTANTS K,        \* max Pool actions per quantum
-          Relax     \* names of checks switched off (diagnostic runs)
+CONSTANTS K,          \* max Pool actions per quantum
+          Relax,      \* names of checks switched off (diagnostic runs)
+          DevChoices  \* sequence of deviation sets; every trace is validated once per entry
 
 Traces == JsonDeserialize(IOEnv.TRACE_FILE)
 
-VARIABLES tid, l, k, flag
-tvars == <<tid, l, k, flag>>
+VARIABLES tid, di, l, k, flag
+tvars == <<tid, di, l, k, flag>>
 
 T    == Traces[tid]
 N    == Len(T.ev)
@@ -31,10 +32,11 @@ Chk(name, e) == name \in Relax \/ e
 TCfg == [originOf |-> [r \in Req |-> IF r <= NReq THEN T.cfg.originOf[r] ELSE ""],
          maxConn |-> T.cfg.maxConn, maxKeep |-> T.cfg.maxKeep, expiry |-> T.cfg.expiry,
          poolTO |-> [r \in Req |-> IF r <= NReq THEN T.cfg.poolTO[r] ELSE NoTimeout],
-         mux |-> SeqToSet(T.cfg.mux), muxGuess |-> SeqToSet(T.cfg.muxGuess), noKeep |-> SeqToSet(T.cfg.noKeep)]
+         mux |-> SeqToSet(T.cfg.mux), muxGuess |-> SeqToSet(T.cfg.muxGuess), noKeep |-> SeqToSet(T.cfg.noKeep),
+         dev |-> DevChoices[di]]
 
 TInit ==
-  /\ tid \in 1..Len(Traces)
+  /\ tid \in 1..Len(Traces) /\ di \in 1..Len(DevChoices)
   /\ l = 1 /\ k = 0
   /\ flag = [r \in Req |-> "none"]
   /\ cfg = TCfg
@@ -56,7 +58,9 @@ Match(o) ==
   /\ Chk("m.proto", \A c \in Known(o) : cst[c] \in {"new", "active", "idle"} => cmux[c] = o.cs[c].mux)
   /\ Chk("m.reqs", /\ Cardinality({r \in SeqToSet(queue) : asg[r] # None}) = o.na
                    /\ Cardinality({r \in SeqToSet(queue) : asg[r] = None}) = o.nq)
-  /\ Chk("m.streams", {c \in Conn : cstr[c] = "open"} = SeqToSet(o.so))
+  \* (a stream opens when the driver resolves the connect operation, which the owner notices in
+  \*  its next quantum: the ledger is compared after quanta, not after the driver's own stimuli)
+  /\ Chk("m.streams", Ev.e \in {"Q", "End"} => {c \in Conn : cstr[c] = "open"} = SeqToSet(o.so))
   /\ Chk("m.clock", clock = o.clock)
   /\ Chk("m.timers", Bag(FutureDeadlines, LAMBDA r : wdl[r]) = Bag(DOMAIN o.tm, LAMBDA i : o.tm[i]))
   \* the public predicates are the functions of the state the specification says they are
@@ -116,12 +120,12 @@ RetPc(ret) == CASE ret = "ok" -> "done" [] ret = "timeout" -> "timedout"
 SubStep ==      \* one more Pool action of the request that ran in this quantum
   /\ l <= N /\ Ev.e = "Q" /\ Ev.r \in TReq /\ k < K
   /\ TSub(Ev.r)
-  /\ k' = k + 1 /\ UNCHANGED <<tid, l>>
+  /\ k' = k + 1 /\ UNCHANGED <<tid, di, l>>
 
 EndSub ==       \* at the end of the execution everybody may catch up with invisible steps
   /\ l <= N /\ Ev.e = "End" /\ k < K
   /\ \E r \in TReq : (StartWait(r) \/ Wake(r) \/ Enter(r) \/ Send(r)) /\ UNCHANGED flag
-  /\ k' = k + 1 /\ UNCHANGED <<tid, l>>
+  /\ k' = k + 1 /\ UNCHANGED <<tid, di, l>>
 
 (* C07 at the end of an execution whose environment has completed every operation: whoever
    has not returned is legitimately blocked - held by the caller's own script, or waiting
@@ -144,7 +148,7 @@ EnvStep ==      \* the driver's own stimuli
         /\ UNCHANGED vars
      \/ /\ Ev.e = "Cancel" /\ creq' = [creq EXCEPT ![Ev.r] = Ev.style]
         /\ UNCHANGED <<cfg, pool, nextc, cvars, evicted, queue, pc, asg, tocl, nxt, exc, sent, got, wdl, clock, budget, pclosed, flag>>
-  /\ k' = 1 /\ UNCHANGED <<tid, l>>
+  /\ k' = 1 /\ UNCHANGED <<tid, di, l>>
 
 EndStep ==      \* commit: the model projects to what was logged
   /\ l <= N
@@ -157,7 +161,7 @@ EndStep ==      \* commit: the model projects to what was logged
   \* HTTP/2 connection-level error is read off the availability the connection reports
   /\ cerr' = [c \in Conn |-> IF c \in Known(Ev.obs) /\ cmux[c] /\ cst[c] \in {"active", "idle"}
                                THEN ~Ev.obs.cs[c].av ELSE cerr[c]]
-  /\ UNCHANGED <<cfg, pool, nextc, cst, corg, cmux, cexp, cdead, cstr, ccnt, cexch, cwire, evicted, queue, rvars, clock, budget, pclosed, tid, flag>>
+  /\ UNCHANGED <<cfg, pool, nextc, cst, corg, cmux, cexp, cdead, cstr, ccnt, cexch, cwire, evicted, queue, rvars, clock, budget, pclosed, tid, di, flag>>
 
 TNext == SubStep \/ EndSub \/ EnvStep \/ EndStep
 TSpec == TInit /\ [][TNext]_<<vars, tvars>>
@@ -165,8 +169,11 @@ TSpec == TInit /\ [][TNext]_<<vars, tvars>>
 (***************************************************************************)
 (* Batch acceptance: the longest matched prefix per trace                  *)
 (***************************************************************************)
-ASSUME \A i \in 1..Len(Traces) : TLCSet(i, 0)
-Mark == IF TLCGet(tid) < l THEN TLCSet(tid, l) ELSE TRUE
-Post == \A i \in 1..Len(Traces) :
-          PrintT(<<"TRACE", i, IF TLCGet(i) = Len(Traces[i].ev) + 1 THEN "ACCEPT" ELSE "REJECT", TLCGet(i)>>)
+ND == Len(DevChoices)
+Reg == (tid - 1) * ND + di
+ASSUME \A i \in 1..(Len(Traces) * ND) : TLCSet(i, 0)
+Mark == IF TLCGet(Reg) < l THEN TLCSet(Reg, l) ELSE TRUE
+Post == \A i \in 1..Len(Traces) : \A d \in 1..ND :
+          PrintT(<<"TRACE", i, d, IF TLCGet((i - 1) * ND + d) = Len(Traces[i].ev) + 1 THEN "ACCEPT" ELSE "REJECT",
+                   TLCGet((i - 1) * ND + d)>>)
 =============================================================================
